@@ -20,6 +20,7 @@ import (
 	"sort"
 	"strings"
 	"sync"
+	"sync/atomic"
 
 	v1 "github.com/crossplane/crossplane/apis/pkg/v1"
 	"github.com/crossplane/crossplane/verifh/kit"
@@ -358,13 +359,15 @@ func runSeq(c *kit.Ctx, i int, real bool) {
 			}
 			x.count("sequences_"+stream, 1)
 			c.Eval(fmt.Sprintf("%s|%s|%d|%d", stream, kit.JSON(sc), p1, p2), true)
-			if p1 == 3 && p2 == 0 && sc.Blocker == "" && len(sc.S1) >= 2 && c.WantSample() {
+			if p1 == 3 && p2 == 0 && sc.Blocker == "" && len(sc.S1) >= 2 && seqSamples.Add(1) <= 2 && c.WantSample() {
 				c.Sample(map[string]any{"case": desc, "ops": x.ops})
 			}
 			x.flush()
 		}
 	}
 }
+
+var seqSamples atomic.Int32
 
 func wantUnder(c *kit.Ctx, prefix string) bool {
 	return c.Only == "" || c.Only == prefix || strings.HasPrefix(c.Only, prefix+"/") || strings.HasPrefix(prefix, c.Only+"/")
@@ -485,19 +488,19 @@ func main() {
 		i    int
 	}
 	var jobs []job
-	for i := 0; i < c.N(1500, 12000); i++ {
+	for i := 0; i < c.N(1500, 8000); i++ {
 		jobs = append(jobs, job{"single", i})
 	}
-	for i := 0; i < c.N(14, 110); i++ {
+	for i := 0; i < c.N(14, 60); i++ {
 		jobs = append(jobs, job{"seq", i})
 	}
-	for i := 0; i < c.N(5, 40); i++ {
+	for i := 0; i < c.N(5, 20); i++ {
 		jobs = append(jobs, job{"rseq", i})
 	}
-	for i := 0; i < c.N(50, 400); i++ {
+	for i := 0; i < c.N(50, 250); i++ {
 		jobs = append(jobs, job{"fault", i})
 	}
-	for i := 0; i < c.N(10, 80); i++ {
+	for i := 0; i < c.N(10, 50); i++ {
 		jobs = append(jobs, job{"faultseq", i})
 	}
 	ch := make(chan job)
